@@ -85,6 +85,15 @@ Theorem C19_cmsg_fits : forall o : sendopt,
 Proof. exact (send_fits_sound gen_layout ltac:(vm_compute; reflexivity)). Qed.
 Print Assumptions C19_cmsg_fits.
 
+(** The concrete model of [prepare_msg] — the function the correspondence runs against the real
+    one, with ECN value, segment size and source address — pushes exactly the sizes of its option
+    combination, so it never exceeds the buffer either (its [Encoder::push] panic is unreachable). *)
+Theorem C19_prepare_msg_fits : forall dst ecn seg src einval,
+  src_ok src ->
+  cmsgs_space gen_layout (prepare_cmsgs gen_layout dst ecn seg src einval) <= UDP_CMSG_LEN.
+Proof. exact (fun dst ecn seg src einval => prepare_cmsgs_fits dst ecn seg src einval ltac:(vm_compute; reflexivity)). Qed.
+Print Assumptions C19_prepare_msg_fits.
+
 (** ... and so does every prefix of the pushes (the assertion is checked after each one). *)
 Theorem C19_cmsg_prefix_fits : forall (o : sendopt) (k : nat),
   total_space gen_layout (firstn k (send_sizes gen_layout o)) <= UDP_CMSG_LEN.
